@@ -34,6 +34,22 @@ class PlainGen(gens.SqlGen):
             out = out + [WS1, ('punct', '('), nm('a'), ('punct', ';'), nm('b'), ('punct', ')')]
         return out
 
+    TEMPLATES = ['CREATE TABLE IF NOT EXISTS t (a int)', 'CREATE INDEX IF NOT EXISTS i ON t (a)', 'DROP TABLE IF EXISTS t',
+                 'SELECT a FROM t FOR UPDATE', 'CREATE VIEW v AS SELECT a FROM t FOR UPDATE', 'CREATE TABLE w (a int) WITH (x = 1)',
+                 'CREATE TRIGGER tr AFTER INSERT ON t FOR EACH ROW EXECUTE PROCEDURE f()', 'CREATE TABLE c AS SELECT CASE WHEN a THEN 1 END FROM t',
+                 'ALTER TABLE t ADD COLUMN IF NOT EXISTS b int', 'CREATE OR REPLACE VIEW v AS SELECT 1 WHILE_', 'GRANT SELECT ON t TO u']
+
+    def statement(self, d=0):
+        if d == 0 and self.r.random() < 0.12:
+            words = self.r.choice(self.TEMPLATES).split(' ')
+            out = []
+            for i, w in enumerate(words):
+                if i:
+                    out.append(WS1)
+                out.append(('kw', w) if w.isalpha() and w.isupper() else ('name', w))
+            return out
+        return super().statement(d)
+
     def plain_script(self, k=None):
         k = k if k is not None else self.r.choice([1, 2, 2, 3, 4, 6])
         stmts = [self.statement() for _ in range(k)]
